@@ -29,6 +29,7 @@ pub fn def() -> CheckDef {
         cpu_limit_s: 120,
         fault_kinds: "F-RE, F-SE at every k (enumerated), pairs",
         count_subruns: true,
+        expect_probes: &["pairs_exhaustive", "pairs_sampled", "workload_seam_calls"],
     }
 }
 
